@@ -7,17 +7,32 @@ side conditions (Rtamt/Front/*.lean):
    `mutant`  one-character / one-token edits of valid texts: deletion, duplication, illegal characters,
              truncation, trailing garbage, swapped characters;
    `soup`    random token sequences.
+Four further streams carry constructs the model of the front end does not cover (module imports, `@topic` annotations, the
+initial-value expression of a declaration - which the model parses but does not check -, nesting beyond the interpreter's
+recursion limit). They are judged by the part of the property that needs no model:
+   `import`  `from M import T` lines, variables of the imported type (a class, a module, a string, a function that needs
+             arguments, a name the module does not have, a type that was not imported) and their use in the assertion;
+   `topic`   `@topic(x, t)` for variables and constants declared through the API or in the text (before / after the annotation)
+             and for undeclared names;
+   `deep`    1000-3000 nested prefix operators / parentheses / function calls / left-deep operator chains;
+   `place`   the same expression - well formed, or with an interval edit, a field access, an undeclared bound constant, an
+             undeclared identifier - as an assertion `out = E;` (also checked against the model) and as the initial value of a
+             declaration `[input|output] float v = E`: parse() must give the same verdict in both places (the language does not
+             distinguish where an expression stands), and an undeclared identifier of an accepted text must have become a float
+             signal.
 Oracle (the property): parse() returns or raises RTAMTException — never another exception type, never
 hangs; when it accepts, the model (which accepts only texts derivable from the grammar with 0<=begin<=end and
 declared bound constants, reading every character) accepts too.  Correspondence: same accept/reject decision,
 and on acceptance `spec_print()` equals the names computed from the model's parse tree.
 """
 import re
-from .. import common, formula as F, front as FR, disc
+from .. import common, formula as F, front as FR, disc, impl
 from ..engine import Violation, Ctx
 
 RULE = ("valid: random formulas (depth<=4) under random aliases/separators/parenthesisation, with or without ';' and assertion head, "
         "intervals with units and declared constants; mutant: 1 edit of a valid text (8 character/token edit kinds; 8 interval edit kinds: identifiers as bounds, swapped bounds, units, radix, reals); soup: 1-12 random tokens. "
+        "model-free streams: import (from M import T + variable of type T), topic (@topic on variables / constants / undeclared names), deep (nesting 1000-3000), "
+        "place (one expression as assertion and as initial value of a declaration: same verdict, undeclared identifiers declared). "
         "distinct by text; non-trivial: every text counts once (the observable is the outcome class and the printed AST).")
 EXPLANATION = ("theorems (Lean): the lexer and parser are total functions (termination accepted by the kernel); C14_lexStep_skip / "
                "C14_lex_error_propagates (the lexer skips white space and comments only; any other unrecognised character is an error "
@@ -27,12 +42,17 @@ EXPLANATION = ("theorems (Lean): the lexer and parser are total functions (termi
                "0<=begin<=end as durations and use declared constants). Correspondence: real parse() vs the model on valid texts, "
                "single-edit mutants and token soup.")
 ASSUMPTIONS = ["partial: termination of the real ANTLR parser is only observed up to a wall-clock limit per text",
-               "module imports, ROS annotations and typed object variables are not modelled and not generated"]
+               "module imports, ROS annotations, typed object variables, the side conditions of a declaration's initial value and the "
+               "recursion limit are not modelled: such texts are generated, and judged without the model (parse() returns or raises "
+               "RTAMTException; same verdict for an expression as assertion and as initial value; undeclared identifiers of an accepted "
+               "text are float signals)"]
 VARS = ["a", "b", "c"]
+UNDECLARED = ["zz", "x", "y1"]
 REGIONS = {}
 
 
-def gen_valid(rng):
+def gen_valid(rng, bare=False):
+    """A valid specification text and the constants it needs; `bare`: the expression alone (no head, no ';', no declarations)."""
     g = F.Gen(rng, VARS, F.ALL_DISCRETE_OFFLINE - {"fn"}, max_bound=4)
     f = g.formula(rng.choice([1, 2, 3, 4])) if rng.random() < 0.8 else g.untyped(3)
     st = FR.Style(rng, alias=True, minimal=rng.random() < 0.5, extra_parens=rng.choice([0, 0, 1, 2]))
@@ -49,6 +69,8 @@ def gen_valid(rng):
                 consts.append((nm, str(k)))
             return nm
         return str(k)
+    if bare:
+        return FR.spec_text(f, st, head=False, semi=False, bound=bound), consts
     text = FR.spec_text(f, st, head=rng.random() < 0.8, semi=rng.random() < 0.7, bound=bound)
     if rng.random() < 0.15:
         # declarations in the text of variables that are declared through the API as well (declaring a name again is legal)
@@ -128,7 +150,7 @@ NUM_RE = re.compile(r"(?<![\w.])(\d+)\.0(?![\w.])")
 def dotted_variant(rng, text):
     """An identifier with a field: `a.real` / `a.imag` are numbers again (accepted), `a.numerator`, `a.conjugate`, `a..real`,
     `zz.real` (undeclared head) are clean rejections, `a.` is `a`; in an expression or as the name of the assertion."""
-    tail = rng.choice([".real", ".imag", ".real.imag", ".", ".numerator", ".conjugate", ".value", "..real", ".real.", ".__class__"])
+    tail = rng.choice([".real", ".imag", ".real.imag", ".", ".", ".numerator", ".conjugate", ".value", "..real", ".real.", ".__class__"])
     if rng.random() < 0.4 and text.startswith("out = "):
         head = rng.choice(["out", "a", "zz", "b"])
         return head + tail + text[3:], "dotted:name" + tail
@@ -136,6 +158,9 @@ def dotted_variant(rng, text):
     if not ms:
         return None
     m = rng.choice(ms)
+    if rng.random() < 0.35:
+        # the head is a name that is declared nowhere: `zz.` is the (implicitly declared) float signal zz, `zz.real` a clean rejection
+        return text[:m.start()] + rng.choice(UNDECLARED) + tail + text[m.end():], "dotted:undeclared" + tail
     return text[:m.end()] + tail + text[m.end():], "dotted:expr" + tail
 
 
@@ -160,62 +185,292 @@ def literal_variant(rng, text):
     return text[:m.start()] + sp + text[m.end():], "literal:" + ("good" if sp in good else "bad")
 
 
+# ------------------------------------------------------------------ streams judged without the model
+def parse_only(text, consts, kind, watch=()):
+    """parse() alone on a fresh specification object (a, b, c and the constants declared through the API).
+    ('ok', {identifier of `watch`: is it a float signal now}) | ('rtamt', message) | ('other', type, message)."""
+    def go():
+        spec = impl.make_spec(kind, text, VARS, consts=[(k, "float", v) for k, v in consts])
+        spec.parse()
+        ast = spec.ast
+        return {w: bool(w in ast.vars and ast.var_type_dict.get(w) == "float" and w in ast.var_object_dict) for w in watch}
+    return impl.guarded(go, 20.0, True)
+
+
+def spec_class(text):
+    # one text in five goes through the dense-time specification class (same parser visitor, other unit handling)
+    return "offc" if sum(map(ord, text)) % 5 == 0 else "offd"
+
+
+def shown(text):
+    return repr(text) if len(text) <= 200 else "%r... (%d characters)" % (text[:120], len(text))
+
+
+def check_free(ctx, text, consts, stream, watch=()):
+    """The part of the property that needs no model: parse() terminates and returns or raises RTAMTException; an identifier of
+    `watch` (declared neither through the API nor by the text) is a float signal after a parse() that returned."""
+    kind = spec_class(text)
+    ctx.count("spec-class:" + kind)
+    out = parse_only(text, consts, kind, watch)
+    ctx.nontrivial.add(text)
+    rep = {"oracle": "free", "text": text, "consts": consts, "stream": stream, "watch": list(watch), "impl": out}
+    if out[0] == "other":
+        return out, Violation("parse() %s on %s" % ("did not terminate within the limit" if out[1] == "Timeout" else
+                                                    "raised %s (not RTAMTException): %s" % (out[1], out[2]), shown(text)), rep, stream=stream)
+    if out[0] == "ok":
+        for w in sorted(out[1]):
+            if not out[1][w]:
+                return out, Violation("parse() accepts %s, but the identifier %s, which is declared nowhere, is neither implicitly declared "
+                                      "as a float signal nor rejected" % (shown(text), w), rep, stream=stream)
+    return out, None
+
+
+PLACES = ["float v = %s\nout = (v >= 0);", "input float v = %s\nout = (v >= 0);", "output float v = %s\nout = (v >= 0);",
+          "float v = %s\nfloat w\nout = (v >= 0);", "int v = %s\nout = (v >= 0)"]
+
+
+def check_place(ctx, expr, consts, place, stream, watch=()):
+    """One expression as an assertion and as the initial value of a declaration: the same verdict in both places."""
+    ta, td = "out = %s;" % expr, place % expr
+    oa, va = check_free(ctx, ta, consts, stream, watch)
+    if va is not None:
+        return va
+    od, vd = check_free(ctx, td, consts, stream, watch)
+    if vd is not None:
+        return vd
+    if any(o[0] == "rtamt" and "Ambiguity ERROR" in o[1] for o in (oa, od)):
+        ctx.count("rejected-as-ambiguous")          # ANTLR's prediction ambiguity depends on the context of the expression
+        return None
+    ctx.count("place:" + ("accepted" if oa[0] == "ok" else "rejected"))
+    if oa[0] != od[0]:
+        rep = {"oracle": "place", "expr": expr, "place": place, "consts": consts, "stream": stream, "watch": list(watch),
+               "text": td, "as_assertion": ta, "impl_assertion": oa, "impl_initial_value": od}
+        if od[0] == "ok":
+            return Violation("parse() accepts %r although it rejects the same expression as an assertion, %r (%s): the initial value of a "
+                             "declaration is not held to the language" % (td, ta, oa[1][:90]), rep, stream=stream)
+        return Violation("parse() rejects %r (%s) although it accepts the same expression as an assertion, %r" % (td, od[1][:90], ta), rep,
+                         stream=stream)
+    return None
+
+
+VAR_RE = re.compile(r"(?<![\w.])([abc])(?![\w.])")
+
+
+def gen_place(rng):
+    """An expression for the `place` stream: a valid one, possibly with one identifier replaced by a name that is declared
+    nowhere (`y`), then possibly one fault: an interval edit (swapped bounds, identifiers / undeclared constants as bounds, units,
+    ...), or a field access."""
+    expr, consts = gen_valid(rng, bare=True)
+    watch = []
+    if rng.random() < 0.5:
+        ms = list(VAR_RE.finditer(expr))
+        if ms:
+            m = rng.choice(ms)
+            expr = expr[:m.start()] + "y" + expr[m.end():]
+            watch = ["y"]
+    kind = "wellformed"
+    r = rng.random()
+    if r < 0.45:
+        im = interval_mutant(rng, expr)
+        if im is not None:
+            expr, kind = im
+    elif r < 0.65:
+        tail = rng.choice([".level", ".real", ".", ".value", ".imag"])
+        ms = list(re.finditer(r"(?<![\w.])([abcy])(?![\w.])", expr))
+        if ms:
+            m = rng.choice(ms)
+            expr, kind = expr[:m.end()] + tail + expr[m.end():], "dotted" + tail
+    elif r < 0.75:
+        expr, kind = rng.choice(["always[5:2] (%s)", "once[0:k] (%s)", "(%s) until[3:1] (a >= 0)", "eventually[zz,4] (%s)",
+                                 "historically[2s:500ms] (%s)", "(%s) since[K7:K7] (b <= 1)"]) % expr, "wrapped"
+    if "y" in watch and not re.search(r"(?<![\w.])y(?![\w.])", expr):
+        watch = []                                  # `y.real` and the like: rejected, or another identifier
+    return expr, consts, rng.choice(PLACES), "place:" + kind, watch
+
+
+IMPORTS = {  # module -> names: a class that can be instantiated, things that cannot, names the module does not have
+    "fractions": ["Fraction", "Decimal", "foo", "math", "gcd"],
+    "os": ["path", "sep", "getcwd", "nosuch", "getenv"],
+    "math": ["pi", "sqrt", "inf", "Pi"],
+    "decimal": ["Decimal", "Context", "ROUND_UP", "foo"],
+    "collections": ["OrderedDict", "namedtuple", "abc", "Foo"],
+    "os.path": ["join", "sep", "bar"],
+    "harness.msgs": ["Msg", "Msg2", "foo"],
+    "nosuchmodule": ["foo"],
+}
+
+
+def gen_import(rng):
+    mod = rng.choice(sorted(IMPORTS))
+    typ = rng.choice(IMPORTS[mod])
+    lines = ["from %s import %s" % (mod, typ)]
+    r = rng.random()
+    if r < 0.1:
+        lines.append("from %s import %s" % (mod, rng.choice(IMPORTS[mod])))
+    elif r < 0.15:
+        lines.insert(0, "float b")                       # an import after a declaration: not in the grammar
+    var = rng.choice(["x", "x", "m", "a"])
+    r = rng.random()
+    if r < 0.75:
+        lines.append(rng.choice(["%s %s", "%s %s", "input %s %s", "output %s %s"]) % (typ, var))
+    elif r < 0.85:
+        lines.append("%s %s" % (rng.choice(["Foo", "path", "Fraction"]), var))      # possibly a type that was not imported
+    use = rng.choice(["%s > 1", "%s.value > 1", "%s.numerator >= 0", "%s.real > 0", "a > 1", "always[0,2] (%s.value >= a)", "%s. > 0"])
+    lines.append("out = " + (use % var if "%s" in use else use))
+    return "\n".join(lines), [], "import"
+
+
+def gen_topic(rng):
+    decl = []
+    consts = []
+    target = rng.choice(["api-var", "text-var", "text-var-later", "text-const", "text-const", "api-const", "undeclared", "assertion"])
+    name = {"api-var": "a", "text-var": "v", "text-var-later": "v", "text-const": "k", "api-const": "K9", "undeclared": "zz",
+            "assertion": "out"}[target]
+    ann = "@topic(%s, %s)" % (name, rng.choice(["foo", "t1", "a", name]))
+    if target == "text-var":
+        decl = [rng.choice(["float v", "input float v", "output int v"]), ann]
+    elif target == "text-var-later":
+        decl = [ann, "float v"]
+    elif target == "text-const":
+        decl = ["const %s k = %s" % (rng.choice(["float", "int"]), rng.choice(["1", "2", "0.5"])), ann]
+    else:
+        decl = [ann]
+        if target == "api-const":
+            consts = [("K9", rng.choice(["1", "2"]))]
+    if rng.random() < 0.3:
+        decl.insert(rng.randrange(len(decl) + 1), rng.choice(["float w", "@topic(b, tb)", "const int j = 3"]))
+    body = rng.choice(["x > %s", "a >= %s", "always[0,2] (a > %s)", "%s <= b", "once[0:%s] (a > 0)"])
+    val = name if target in ("text-const", "api-const", "text-var", "text-var-later", "api-var") else "1"
+    if "[0:" in body and target not in ("text-const", "api-const"):
+        val = "1"
+    watch = ["x"] if body.startswith("x ") else []
+    return "\n".join(decl + ["out = " + body % val]), consts, "topic:" + target, watch
+
+
+DEEP = {
+    "not": lambda n: "out = " + "not " * n + "a",
+    "bang": lambda n: "out = " + "!" * n + "(a > 0)",
+    "paren": lambda n: "out = " + "(" * n + "a" + ")" * n,
+    "neg": lambda n: "out = " + "- " * n + "a > 0",
+    "always": lambda n: "out = " + "always " * n + "(a > 0)",
+    "abs": lambda n: "out = " + "abs(" * n + "a" + ")" * n + " > 0",
+    "sum": lambda n: "out = a" + " + b" * n + " > 0",
+    "decl": lambda n: "float v = " + "(" * n + "a" + ")" * n + "\nout = v > 0",
+}
+DEEP_SLOW = {   # a few tenths of a second each: thorough tier only
+    "bounded": lambda n: "out = " + "G[0,1] " * n + "(a > 0)",
+    "and": lambda n: "out = (a > 0)" + " and (b > 0)" * n,
+    "implies": lambda n: "out = " + "(a > 0) -> (" * n + "(b > 0)" + ")" * n,
+    "until": lambda n: "out = (a > 0)" + " until[0,1] (b > 0)" * n,
+    "assertions": lambda n: "\n".join("o%d = a > %d;" % (i, i) for i in range(n)),
+}
+
+
+def gen_deep(rng, thorough):
+    shapes = dict(DEEP)
+    if thorough:
+        shapes.update(DEEP_SLOW)
+    k = rng.choice(sorted(shapes))
+    n = rng.choice([1000, 1500, 2000, 3000] + ([400, 700, 5000, 10000] if thorough else []))
+    return shapes[k](n), [], "deep:" + k
+
+
+def family(stream, v):
+    """Violations are reported once per stream family and kind of failure."""
+    fam = stream.split(":")
+    fam = ":".join(fam[:2]).split(".")[0] if fam[0] == "mutant" else fam[0]
+    imp = v.replay.get("impl") or ()
+    return fam, (imp[1] if len(imp) > 2 and imp[0] == "other" else v.replay.get("oracle", "model"))
+
+
 def explore(ctx, rng, count):
-    items = []
+    thorough = ctx.tier == "thorough"
+    items = []          # (text, consts, stream, extra): extra None = compared with the model
+    for _ in range(6 if not thorough else 40):
+        t, cs, st = gen_deep(rng, thorough)
+        items.append((t, cs, st, {"free": ()}))
     for _ in range(count):
         text, consts = gen_valid(rng)
-        items.append((text, consts, "valid"))
+        items.append((text, consts, "valid", None))
         lv = literal_variant(rng, text)
         if lv is not None:
-            items.append((lv[0], consts, "mutant:" + lv[1]))
+            items.append((lv[0], consts, "mutant:" + lv[1], None))
         im = interval_mutant(rng, text)
         if im is not None:
-            items.append((im[0], consts, "mutant:" + im[1]))
+            items.append((im[0], consts, "mutant:" + im[1], None))
         if rng.random() < 0.4:
             dv = dotted_variant(rng, text)
             if dv is not None:
-                items.append((dv[0], consts, "mutant:" + dv[1]))
+                items.append((dv[0], consts, "mutant:" + dv[1], None))
         for _k in range(2):
             mt, kind = FR.mutate(rng, text)
-            items.append((mt, consts, "mutant:" + kind))
+            items.append((mt, consts, "mutant:" + kind, None))
         if rng.random() < 0.5:
-            items.append((FR.soup(rng), [], "soup"))
+            items.append((FR.soup(rng), [], "soup", None))
         if rng.random() < 0.15:
             # declared constants with non-decimal values, used in expressions and as bounds
             v = rng.choice(["0X1F", "0B11", "0x3", "3", "1_0", "2.5", "1E1", "0x1f", "0b1", "1__0", "0x1__F", "2__0.5"])   # valid literals only: the value comes through the API
-            items.append((rng.choice(["out = a >= K9", "out = once[0,K9](a >= 1)", "out = always[K9,K9] (a > K9)"]), [("K9", v)], "const-value"))
-    ms = []
+            items.append((rng.choice(["out = a >= K9", "out = once[0,K9](a >= 1)", "out = always[K9,K9] (a > K9)"]), [("K9", v)], "const-value", None))
+        r = rng.random()
+        if r < 0.10:
+            expr, cs, place, st, watch = gen_place(rng)
+            items.append(("out = %s;" % expr, cs, st + "/assertion", None))        # the assertion form is held to the model
+            items.append((place % expr, cs, st, {"place": (expr, place), "watch": watch}))
+        elif r < 0.15:
+            t, cs, st = gen_import(rng)
+            items.append((t, cs, st, {"free": ()}))
+        elif r < 0.19:
+            t, cs, st, watch = gen_topic(rng)
+            items.append((t, cs, st, {"free": watch}))
+    ms = [None] * len(items)
     # model calls grouped by constants
-    for text, consts, _ in items:
-        ms.append(None)
     by = {}
-    for i, (text, consts, _) in enumerate(items):
-        by.setdefault(tuple(consts), []).append(i)
+    for i, (text, consts, _, extra) in enumerate(items):
+        if extra is None:
+            by.setdefault(tuple(consts), []).append(i)
     for cs, idxs in by.items():
         res = FR.model_parse([items[i][0] for i in idxs], consts=cs)
         for i, r in zip(idxs, res):
             ms[i] = r
-    for (text, consts, stream), m in zip(items, ms):
+    seen = set()
+    for (text, consts, stream, extra), m in zip(items, ms):
         ctx.evaluations += 1
         ctx.count("stream:" + stream.split(":")[0])
-        v, d = check_text(ctx, text, consts, stream, m)
-        ctx.count("accepted" if m[0] == "ok" else "rejected")
+        if extra is None:
+            v, d = check_text(ctx, text, consts, stream, m)
+            ctx.count("accepted" if m[0] == "ok" else "rejected")
+        elif "place" in extra:
+            v, d = check_place(ctx, extra["place"][0], consts, extra["place"][1], stream, extra["watch"]), None
+        else:
+            (out, v), d = check_free(ctx, text, consts, stream, extra["free"]), None
+            ctx.count("model-free:" + ("accepted" if out[0] == "ok" else "rejected"))
         if v is None and d is None:
             ctx.traces_validated += 1
-            if len(ctx.samples) < 5 and (stream.startswith("mutant") or len(ctx.samples) < 2):
+            if extra is None and len(ctx.samples) < 5 and (stream.startswith("mutant") or len(ctx.samples) < 2):
                 ctx.sample({"text": text, "stream": stream, "outcome": m[0]})
         if v is not None:
-            ctx.violations.append(v)
-            if len(ctx.violations) >= 3:
-                return
+            fam = family(stream, v)
+            if fam not in seen:
+                seen.add(fam)
+                ctx.violations.append(v)
+                if len(ctx.violations) >= 8:
+                    break
         if d is not None:
             ctx.diffs.append(d)
+    # the engine writes the first five: the verdict that depends on the place first, then one per family
+    ctx.violations.sort(key=lambda v: 0 if v.replay.get("oracle") == "place" else 1 if str(v.stream).startswith("place") else 2)
 
 
 def replay(ctx, obj):
     consts = [tuple(c) for c in obj.get("consts", [])]
-    m, = FR.model_parse([obj["text"]], consts=consts)
-    v, d = check_text(Ctx(ctx.id, ctx.tier, ctx.seed), obj["text"], consts, "replay", m)
+    c = Ctx(ctx.id, ctx.tier, ctx.seed)
+    if obj.get("oracle") == "place":
+        v = check_place(c, obj["expr"], consts, obj["place"], "replay", obj.get("watch", ()))
+    elif obj.get("oracle") == "free":
+        v = check_free(c, obj["text"], consts, "replay", obj.get("watch", ()))[1]
+    else:
+        m, = FR.model_parse([obj["text"]], consts=consts)
+        v, d = check_text(c, obj["text"], consts, "replay", m)
     return (v is None), (v.what if v else "parse() behaves as the language definition requires on the replayed text")
 
 
